@@ -8,7 +8,7 @@
    allocation failure and stack depth are exercised by the malformed-input stream of the
    correspondence (debug build), not proved. *)
 From WB Require Import Base.Str Base.Json Model.Key Model.Store Model.Entry Model.Core Model.Codec Model.Session
-  Proofs.CoreFacts Proofs.C01Proof Proofs.C17Proof Proofs.SessionFacts Proofs.LockHistory Proofs.NoCrash Proofs.WorldCore.
+  Proofs.CoreFacts Proofs.C01Proof Proofs.C17Proof Proofs.SessionFacts Proofs.LockHistory Proofs.NoCrash Proofs.WorldCore Model.Rest Model.RestWorld Proofs.WorldRest.
 
 Theorem C17_data_request_no_crash :
   forall s o, Inv s -> c01_op o -> import_ok o ->
@@ -75,6 +75,15 @@ Example C17_world_nonvacuous :
   Forall ev_ok es /\ ops_hist (world_init false) es =
     [OConnected 1; OConnected 2; OSet 1 [97]%N JNull false; ODisconnected 2; OCSet 1 [98]%N JNull 7 false; ODisconnected 1].
 Proof. split; [repeat constructor; discriminate|vm_compute; reflexivity]. Qed.
+
+(* both front ends at once (Proofs/WorldRest.v): events of the socket sessions and REST requests, interleaved in any
+   order, run on the one core, one request at a time, and none of them crashes it ([wev_ok]: no cSet names the version
+   u64::MAX -- F17 --, an imported tree has distinct, regular names) *)
+Theorem C17_mixed_never_crashes :
+  forall auth xs, Forall wev_ok xs ->
+    nocrash (trace init (wops_hist (world_init auth) xs)) /\ Inv (w_core (wfinal' (world_init auth) xs)).
+Proof. exact mixed_never_crashes. Qed.
+Print Assumptions C17_mixed_never_crashes.
 
 Theorem C17_overflow_refuted : exists cur v, decide cur (Cas v u64_max) false = DCrash.
 Proof. exists (Some (Cas JNull u64_max)), JNull. reflexivity. Qed.
